@@ -557,7 +557,8 @@ def norm_sets(text):
                         break
                     i += 1
                 i += 1
-                out.append("{" + ", ".join(sorted(elems)) + "}")
+                # a BTreeSet keeps one copy of equal elements (two parameters bound to the same value)
+                out.append("{" + ", ".join(sorted(set(elems))) + "}")
             elif c in "([":
                 e, i = until(i + 1, ")" if c == "(" else "]")
                 out.append(c + e + (text[i] if i < n else ""))
